@@ -66,9 +66,17 @@ def _gen_action(rng, nfn):
                 rng.random() < 0.15]
     if k < 0.80:
         return ["rm_key", rng.randrange(1000)]
-    if k < 0.92:
+    if k < 0.88:
         return ["rm_event", rng.choice(EVENTS), rng.randrange(nfn)]
-    return ["rm_fn", rng.randrange(nfn)]
+    if k < 0.93:
+        return ["rm_fn", rng.randrange(nfn)]
+    if k < 0.97:
+        # run a pending delay early from inside the handler: its callback posts synchronously (children of this event)
+        return ["run_now_delay", [["plain", rng.choice(EVENTS), _post_kw(rng), rng.random() < 0.3]
+                                  for _ in range(rng.choice([1, 2]))]]
+    # report a switch change from inside the handler: the (untimed) switch handler posts synchronously
+    return ["hit_switch", [["plain", rng.choice(EVENTS), _post_kw(rng), rng.random() < 0.3]
+                           for _ in range(rng.choice([1, 2]))]]
 
 
 def gen_case(rng, tier, index):
@@ -100,7 +108,7 @@ def run_case(case):
     live = []       # rids in registration order (for rm_key references)
     fns = {}
 
-    cfg = "switches:\n  s1:\n    number: 1\n  s2:\n    number: 2\n"
+    cfg = "switches:\n  s1:\n    number: 1\n  s2:\n    number: 2\n  s3:\n    number: 3\n"
     with VMachine(cfg) as vm:
         m = vm.machine
         ev = m.events
@@ -161,6 +169,20 @@ def run_case(case):
                         if r.alive and r.fid == a[1]:
                             chk.remove_reg(r.rid)
                     ev.remove_handler(fns[a[1]])
+            elif kind == "run_now_delay":
+                posts = a[1]
+
+                def fire_now(_posts=posts):
+                    for pp in _posts:
+                        do_post(*pp)
+                name = m.delay.add(ms=5000, callback=fire_now)
+                st["run_now"] = st.get("run_now", 0) + 1
+                m.delay.run_now(name)
+            elif kind == "hit_switch":
+                inner_pending.append(a[1])
+                st["inner_switch"] = st.get("inner_switch", 0) + 1
+                m.switch_controller.process_switch("s3", 1, logical=True)
+                m.switch_controller.process_switch("s3", 0, logical=True)
 
         def make_fn(fid):
             def fn(**kwargs):
@@ -200,6 +222,14 @@ def run_case(case):
             do_add(*r)
 
         sw_pending = []
+        inner_pending = []
+
+        def inner_sw_handler(**kwargs):
+            if inner_pending:
+                for pp in inner_pending.pop(0):
+                    do_post(*pp)
+
+        m.switch_controller.add_switch_handler("s3", inner_sw_handler, state=1, ms=0)
 
         def sw_handler(**kwargs):
             if sw_pending:
@@ -265,5 +295,7 @@ def run_case(case):
         "".join(str(min(len(p), 3)) for p in case["fns"]), min(len(case["regs"]), 12) // 3, min(ninv, 60) // 6,
         st["depth_seen"], min(chk.obs["callbacks"], 6), min(chk.obs["removed_mid_dispatch_called"], 3))
     chk.obs["contexts_used"] = len(st["ctx_used"])
+    chk.obs["run_now_from_handler"] = st.get("run_now", 0)
+    chk.obs["switch_report_from_handler"] = st.get("inner_switch", 0)
     return {"violations": chk.viol, "clauses": chk.clauses, "shape": shape,
             "nontrivial": ninv >= 3 and st["depth_seen"] >= 1 and chk.obs["callbacks"] >= 1, "obs": chk.obs}
